@@ -370,3 +370,35 @@ def distribution(cases, results):
     for c in cases:
         d[c['pol']] = d.get(c['pol'], 0) + 1
     return d
+
+
+# ================================================= ADDITION (long gaps) ===============================================
+# Inter-trial delays of MORE THAN 2**16 SAMPLES consumed by a single request (0.34 s at 195 kHz): the delay branch of
+# _pop_buffer must hand out the whole gap however long it is.  Oracle only - C02_timeline has no bound on delays or
+# request sizes, but printing 2e5 model samples per case is pointless; chunk invariance against one request, the rendering
+# of the notified trials and the exact spacing are judged on the implementation alone (the regular oracle above).
+_cases0, _expr0, _agree0 = cases, expr, agree
+
+RULE += (' (long gaps) inter-trial delays of 65537 .. 131073 samples consumed by one request and by requests of 1000 / 66000 '
+         'samples: output, notifications and spacing as for short delays.')
+
+
+def cases(tier, rng):
+    yield from _cases0(tier, rng)
+    for pol in (rng.sample(qc.POLICIES, 2) if tier == 'quick' else qc.POLICIES):
+        gap = rng.choice([65537, 70000, 131073])
+        st = [{'len': 3, 'trials': 2, 'kind': 'array', 'delays': gap}, {'len': 2, 'trials': 1, 'kind': 'gen', 'delays': gap + 5}]
+        c = {'k': 'longgap', 'pol': pol, 'gs': 2, 'stims': st, 'fs': rng.choice([25000.0, 195312.5]), 't0': 0, 'seed': 1,
+             'fill': 'append'}
+        total = 3 * gap + 40
+        yield dict(c, ops=[['pop', 2], ['pop', gap + 10], ['pop', total]])
+        yield dict(c, ops=[['pop', 4], ['pop', 1000], ['pop', 66000], ['pop', total]])
+
+
+def expr(case, res):
+    return '([1] : list Z)' if case.get('k') == 'longgap' else _expr0(case, res)
+
+
+def agree(case, res, mo):
+    return None if case.get('k') == 'longgap' else _agree0(case, res, mo)
+# ================================================= end of the long-gap addition =======================================
